@@ -19,6 +19,7 @@ pub fn run(args: &Args) -> Report {
         crashes: true,
         flood: false,
         full: args.tier == crate::core::Tier::Thorough,
+        narrow: false,
         max_states: args.tier.pick(200_000, 5_000_000),
         deadline: Instant::now() + Duration::from_secs(args.tier.pick(50, 1500)),
         seed: args.seed,
@@ -32,8 +33,13 @@ pub fn run(args: &Args) -> Report {
         }
         return rep;
     }
-    let res = l1::explore(&w, r, &cfg, &|_e| vec![]);
-    for (k, wh, rp) in &res.violations {
+    // pass 1: minimal alphabet, as deep as the budget allows (fixed point if possible)
+    let total = args.tier.pick(50, 1500);
+    let narrow = l1::L1Cfg { narrow: true, full: false, deadline: Instant::now() + Duration::from_secs(total / 2), ..l1::L1Cfg { ..cfg_clone(&cfg) } };
+    let res_n = l1::explore(&w, r, &narrow, &|_e| vec![]);
+    // pass 2: wide alphabet, breadth-first to the depth the remaining budget allows
+    let res = if res_n.violations.is_empty() { l1::explore(&w, r, &cfg, &|_e| vec![]) } else { l1::L1Result::default() };
+    for (k, wh, rp) in res_n.violations.iter().chain(res.violations.iter()) {
         if k == "equivocation" || k == "store" {
             rep.violations.push(Violation { key: k.clone(), what: wh.clone(), replay: rp.clone() });
         }
@@ -41,11 +47,18 @@ pub fn run(args: &Args) -> Report {
     if res.crash_steps == 0 || res.accepted_steps == 0 {
         rep.machinery_errors.push(format!("vacuous: crash steps {} accepted steps {}", res.crash_steps, res.accepted_steps));
     }
+    let narrow_cov = l1::coverage_json(&res_n, &narrow, "minimal alphabet pass");
+    let res = if res.states == 0 { res_n } else { res };
     rep.coverage = l1::coverage_json(&res, &cfg, "every reachable (local state, signed-log summary) pair of one real replica of K4=[2,2,1,1] (weight-1 validator) under the finite adversarial alphabet, with a crash at every durable write (applied / lost) of every accepted step and plain restarts; oracle over everything signed by all incarnations along the path");
+    rep.coverage["minimal_alphabet_pass"] = narrow_cov;
     rep.assumptions = vec![
         "set_state is atomic (no torn writes inside one call); acknowledged writes are durable".into(),
         "views above the alphabet's bound and payload alphabets larger than the tier's are outside the scope".into(),
     ];
     let _ = json!({});
     rep
+}
+
+fn cfg_clone(c: &l1::L1Cfg) -> l1::L1Cfg {
+    l1::L1Cfg { max_view: c.max_view, crashes: c.crashes, flood: c.flood, full: c.full, narrow: c.narrow, max_states: c.max_states, deadline: c.deadline, seed: c.seed }
 }
